@@ -762,8 +762,11 @@ static void conf_parse_entry(struct conf_parse *parse, struct conf_node_object *
                 ch = conf_parse_whitespace(parse, 1);
                 if (ch == '\0')
                     longjmp(parse->env, PARSE_PREMATURE_EOF);
-                if (ch == '\n' || ch == ';')
+                if (ch == '\n' || ch == ';') {
+                    /* Leave the terminator for the check below. */
+                    parse->curr--;
                     break;
+                }
                 if (ch != ',')
                     longjmp(parse->env, PARSE_EXPECTED_COMMA);
             }
